@@ -244,6 +244,11 @@ TeeViol(op, I, heads, tails, O, pre, i) ==
        \cup (IF ex = ac THEN {}
              ELSE IF Strip(ex) = Strip(ac) THEN {Tag(pre, i, "tee-join-timing")}
              ELSE {Tag(pre, i, "tee-join-output")})
+       \* an error produced inside a branch leaves the tee_map exactly once, whichever branch
+       \* it is (C13: an error is produced once, and surfaces where the stream is demultiplexed)
+       \cup (LET IsE(x) == x.t = "e" IN
+             IF Strip(SelectSeq(ex, IsE)) = Strip(SelectSeq(ac, IsE)) THEN {}
+             ELSE {Tag(pre, i, "tee-error-passage")})
 
 -----------------------------------------------------------------------------
 (* composition: every operator against its adjacent boundaries, the protocol at
